@@ -41,6 +41,8 @@ pub struct Session {
     pub mode: String,
     pub verify: bool,
     pub plan: Vec<Op>,
+    /// UDP: begin with the refused-datagram scenario (see refused_prologue_*)
+    pub refused: bool,
 }
 
 pub struct SessionResult {
@@ -115,12 +117,127 @@ fn user_packet(pool: &Pool, len: usize, c: usize) -> Option<(insim::Packet, Vec<
     pool.typed(len, c)
 }
 
+// ------------------------------------------------------------------------------------- UDP: a refused datagram
+/// The peer's port is closed while one datagram is sent (nobody is listening: LFS not started yet), then the peer is back.  The
+/// kernel parks the ICMP "port unreachable" on the socket and refuses the NEXT send without sending anything.  Whatever the
+/// adaptor makes of that: a write that returned Ok has put its frame on the wire as one datagram, a write that returned an error
+/// has not (Trace_Conn: WriteDone ok -> Unit, WriteDone err -> no Unit, then a new session).
+fn refused_prologue_blocking(book: &mut Book, pool: &Arc<Pool>, mode: &str, seed: u64) -> Option<String> {
+    use std::net::UdpSocket;
+
+    use insim::net::{blocking_impl::{Framed, UdpStream}, Codec};
+    let peer0 = UdpSocket::bind("127.0.0.1:0").ok()?;
+    let paddr = peer0.local_addr().ok()?;
+    let app = UdpSocket::bind("127.0.0.1:0").ok()?;
+    app.connect(paddr).ok()?;
+    let aaddr = app.local_addr().ok()?;
+    drop(peer0);
+    let mut framed = Framed::new(Box::new(UdpStream::from(app)), Codec::new(crate::frames::mode_of(mode)));
+    // (not part of the recorded session: this datagram goes nowhere)
+    if let Some((p, _)) = user_packet(pool, 4, seed as usize) {
+        let _ = std::panic::catch_unwind(std::panic::AssertUnwindSafe(|| framed.write(p)));
+    }
+    std::thread::sleep(Duration::from_millis(30));
+    let peer = UdpSocket::bind(paddr).ok()?;
+    peer.connect(aaddr).ok()?;
+    let mut mismatch = None;
+    book.ev(json!({"ev": "Reset", "transport": "udp", "flavor": "blocking", "verify": true, "mode": mode}));
+    for k in 0..4usize {
+        let (p, enc) = user_packet(pool, [8usize, 4, 8, 4][k], seed as usize + 11 + k)?;
+        book.ev(json!({"ev": "WriteCall", "n": enc.len(), "id": k + 1}));
+        let r = std::panic::catch_unwind(std::panic::AssertUnwindSafe(|| framed.write(p)));
+        let res = match r {
+            Ok(Ok(())) => "ok",
+            Ok(Err(_)) => "err",
+            Err(_) => "panic",
+        };
+        book.ev(json!({"ev": "WriteDone", "id": k + 1, "res": res}));
+        let _ = peer.set_read_timeout(Some(if res == "ok" { READ_LIMIT } else { Duration::from_millis(150) }));
+        let mut b = [0u8; 2048];
+        match peer.recv(&mut b) {
+            Ok(n) => {
+                let ok = b[..n] == enc[..];
+                book.ev(json!({"ev": "Unit", "n": n, "ok": ok}));
+                if (!ok || res != "ok") && mismatch.is_none() {
+                    mismatch = Some(format!("after a refused datagram: write() returned {res} and the peer received {:?} (frame {:?})", &b[..n], enc));
+                }
+            },
+            Err(_) if res == "ok" => {
+                book.ev(json!({"ev": "Unit", "n": 0, "ok": false}));
+                if mismatch.is_none() {
+                    mismatch = Some("after a refused datagram: write() returned Ok but no datagram arrived".into());
+                }
+            },
+            Err(_) => {},
+        }
+        if res != "ok" {
+            book.ev(json!({"ev": "Reset", "transport": "udp", "flavor": "blocking", "verify": true, "mode": mode}));
+        }
+    }
+    mismatch
+}
+
+async fn refused_prologue_tokio(book: &mut Book, pool: &Arc<Pool>, mode: &str, seed: u64) -> Option<String> {
+    use insim::net::{tokio_impl::{Framed, UdpStream}, Codec};
+    use tokio::net::UdpSocket;
+    {
+        let peer0 = UdpSocket::bind("127.0.0.1:0").await.ok()?;
+        let paddr = peer0.local_addr().ok()?;
+        let app = UdpSocket::bind("127.0.0.1:0").await.ok()?;
+        app.connect(paddr).await.ok()?;
+        let aaddr = app.local_addr().ok()?;
+        drop(peer0);
+        let mut framed = Framed::new(Box::new(UdpStream::from(app)), Codec::new(crate::frames::mode_of(mode)));
+        if let Some((p, _)) = user_packet(pool, 4, seed as usize) {
+            let _ = tokio::time::timeout(READ_LIMIT, framed.write(p)).await;
+        }
+        tokio::time::sleep(Duration::from_millis(30)).await;
+        let peer = UdpSocket::bind(paddr).await.ok()?;
+        peer.connect(aaddr).await.ok()?;
+        let mut mismatch = None;
+        book.ev(json!({"ev": "Reset", "transport": "udp", "flavor": "tokio", "verify": true, "mode": mode}));
+        for k in 0..4usize {
+            let (p, enc) = user_packet(pool, [8usize, 4, 8, 4][k], seed as usize + 11 + k)?;
+            book.ev(json!({"ev": "WriteCall", "n": enc.len(), "id": k + 1}));
+            let res = match tokio::time::timeout(READ_LIMIT, framed.write(p)).await {
+                Ok(Ok(())) => "ok",
+                Ok(Err(_)) => "err",
+                Err(_) => "timeout",
+            };
+            book.ev(json!({"ev": "WriteDone", "id": k + 1, "res": res}));
+            let lim = if res == "ok" { READ_LIMIT } else { Duration::from_millis(150) };
+            let mut b = [0u8; 2048];
+            match tokio::time::timeout(lim, peer.recv(&mut b)).await {
+                Ok(Ok(n)) => {
+                    let ok = b[..n] == enc[..];
+                    book.ev(json!({"ev": "Unit", "n": n, "ok": ok}));
+                    if (!ok || res != "ok") && mismatch.is_none() {
+                        mismatch = Some(format!("after a refused datagram: write() returned {res} and the peer received {:?} (frame {:?})", &b[..n], enc));
+                    }
+                },
+                _ if res == "ok" => {
+                    book.ev(json!({"ev": "Unit", "n": 0, "ok": false}));
+                    if mismatch.is_none() {
+                        mismatch = Some("after a refused datagram: write() returned Ok but no datagram arrived".into());
+                    }
+                },
+                _ => {},
+            }
+            if res != "ok" {
+                book.ev(json!({"ev": "Reset", "transport": "udp", "flavor": "tokio", "verify": true, "mode": mode}));
+            }
+        }
+        mismatch
+    }
+}
+
 // ------------------------------------------------------------------------------------- UDP, blocking
 pub fn run_udp_blocking(pool: Arc<Pool>, s: &Session, seed: u64) -> SessionResult {
     use std::net::UdpSocket;
 
     use insim::net::{blocking_impl::{Framed, UdpStream}, Codec};
     let mut book = Book::new(&s.mode, pool.clone(), seed);
+    let pre = if s.refused { refused_prologue_blocking(&mut book, &pool, &s.mode, seed) } else { None };
     let peer = UdpSocket::bind("127.0.0.1:0").expect("bind peer");
     let app = UdpSocket::bind("127.0.0.1:0").expect("bind app");
     peer.connect(app.local_addr().unwrap()).unwrap();
@@ -131,7 +248,7 @@ pub fn run_udp_blocking(pool: Arc<Pool>, s: &Session, seed: u64) -> SessionResul
     let mut framed = Framed::new(Box::new(UdpStream::from(app)), Codec::new(crate::frames::mode_of(&s.mode)));
     framed.verify_version(s.verify);
     book.ev(json!({"ev": "Reset", "transport": "udp", "flavor": "blocking", "verify": s.verify, "mode": s.mode}));
-    let mut mismatch = None;
+    let mut mismatch = pre;
     let mut nwrites = 0;
     for op in s.plan.iter() {
         match op {
@@ -229,6 +346,7 @@ pub fn run_udp_tokio(pool: Arc<Pool>, s: &Session, seed: u64) -> SessionResult {
     let rt = tokio::runtime::Builder::new_current_thread().enable_all().build().unwrap();
     rt.block_on(async {
         let mut book = Book::new(&s.mode, pool.clone(), seed);
+        let pre = if s.refused { refused_prologue_tokio(&mut book, &pool, &s.mode, seed).await } else { None };
         let peer = UdpSocket::bind("127.0.0.1:0").await.expect("bind peer");
         let app = UdpSocket::bind("127.0.0.1:0").await.expect("bind app");
         peer.connect(app.local_addr().unwrap()).await.unwrap();
@@ -236,7 +354,7 @@ pub fn run_udp_tokio(pool: Arc<Pool>, s: &Session, seed: u64) -> SessionResult {
         let mut framed = Framed::new(Box::new(UdpStream::from(app)), Codec::new(crate::frames::mode_of(&s.mode)));
         framed.verify_version(s.verify);
         book.ev(json!({"ev": "Reset", "transport": "udp", "flavor": "tokio", "verify": s.verify, "mode": s.mode}));
-        let mut mismatch = None;
+        let mut mismatch = pre;
         let mut nwrites = 0;
         for op in s.plan.iter() {
             match op {
